@@ -76,7 +76,7 @@ var families = map[string]genCfg{
 		Cmds: 5, PendCmds: true, FailCmds: true, Reloop: true, Dispatch: true, Storer: "recording"},
 	// variables shown in lines of a node that runs three times (the host may write in between)
 	"varsloop": {Family: "varsloop", MaxNodes: 1, MaxDepth: 1, MaxStmts: 5, Sets: 2, Lines: 5, Ifs: 0.5, Opts: 0.5, Reloop: true, Storer: "recording"},
-	"huge": {Family: "huge", MaxNodes: 24, MaxDepth: 7, MaxStmts: 5, Opts: 3, Ifs: 2.5, Sets: 1.5, Jumps: 1.5, Stops: 0.3, Lines: 3,
+	"huge": {Family: "huge", MaxNodes: 24, MaxDepth: 10, MaxStmts: 5, Opts: 3, Ifs: 2.5, Sets: 1.5, Jumps: 1.5, Stops: 0.3, Lines: 3,
 		Cmds: 0.5, Calls: 0.3, VisitLine: false, Huge: true, Storer: "recording"},
 	"snap": {Family: "snap", MaxNodes: 3, MaxDepth: 2, MaxStmts: 4, Opts: 2, Ifs: 1, Sets: 3, Jumps: 2.5, Stops: 0.3, Lines: 2,
 		Cmds: 1.5, PendCmds: true, VisitLine: true, IntroNode: true, Storer: "recording"},
@@ -849,6 +849,10 @@ func (g *gen) stmts(depth int, node int) []Stmt {
 		}
 	}
 	var out []Stmt
+	if cfg.Huge && depth >= 9 && r.Intn(3) == 0 {
+		// a stop deep inside (nine and more bodies are open), with statements remaining after it at every level
+		return []Stmt{g.lineStmt(), {K: "cmd", Elems: []*Expr{eStr("stop")}}, g.lineStmt()}
+	}
 	total := cfg.Opts + cfg.Ifs + cfg.Sets + cfg.Jumps + cfg.Stops + cfg.Lines + cfg.Cmds + cfg.Calls
 	lastWasOpts := false
 	for i := 0; i < n; i++ {
@@ -871,7 +875,12 @@ func (g *gen) stmts(depth int, node int) []Stmt {
 			case 1:
 				out = append(out, Stmt{K: "set", Var: "y", Op: "=", E: eBin("sub", eBin("mul", eVar("x"), eNum(2, 1)), eBin("mul", eVar("x"), eCall("bump")))})
 			case 2:
-				out = append(out, Stmt{K: "call", E: eCall("noret", eVar("x"), eCall("bump"), eVar("x"))})
+				if r.Intn(2) == 0 {
+					// a call among the later arguments of another call: each call has its own arguments
+					out = append(out, Stmt{K: "call", E: eCall("noret", eNum(1, 1), eCall("p1", eNum(5, 1)), eStr("k"), eCall("p1", eCall("p2", eNum(7, 2))))})
+				} else {
+					out = append(out, Stmt{K: "call", E: eCall("noret", eVar("x"), eCall("bump"), eVar("x"))})
+				}
 			default:
 				out = append(out, Stmt{K: "if", Clauses: []Clause{{Cond: eBin("lt", eVar("x"), eCall("bump")), Body: g.c.addBody([]Stmt{g.lineStmt()})}}})
 			}
